@@ -127,6 +127,7 @@ def _write_file(msgs, encoding, bc, blocked, fins):
 def _write_file_on(f, msgs, encoding, bc, blocked, fins):
     w = mciipm.IpmWriter(f, encoding=encoding, iso_config=bc, blocked=blocked)
     for m in msgs:
+        drv.yield_point()
         w.write(dict(m))
     for x in fins:
         w.close() if x == 'close' else w.__exit__(None, None, None)
